@@ -61,8 +61,8 @@ Proof. exact html_well_nested. Qed.
 Print Assumptions C16_html_well_nested_partial.
 
 (* ---- the documents bpaf builds ARE balanced, for every parser definition whose own documents (help
-   texts, group titles, custom usage, description, header, footer: `odok`) are -- and the Doc API can build
-   no others.  So the hypothesis of the theorem above is met by the HTML document of every parser, the
+   texts, group titles, custom usage, description, header, footer: `odok`) are, and hold neither Block::Meta
+   nor Block::TermRef -- the Doc API can build no others.  So the hypothesis of the theorem above is met by the HTML document of every parser, the
    renderers `succeed for every parser` as far as the document is concerned (section extraction never runs
    out of fuel, the group loop of write_help_item_groups terminates), and the same holds for the manpage
    document and for --help *)
@@ -77,6 +77,21 @@ Theorem C16_manpage_document_total_balanced :
   exists d, manpage_doc env app (ometa_of o) (oinfo_of o) = Some d /\ bal [] d = true.
 Proof. exact manpage_document_total_balanced. Qed.
 Print Assumptions C16_manpage_document_total_balanced.
+
+(* ---- `render_html` and `render_manpage` succeed for every parser: the documents exist (above) and hold
+   no block their renderer cannot handle -- Block::Meta is `todo!()` in the HTML renderer, Block::TermRef in
+   the roff one; neither can come from a user's Doc, and bpaf's own writers put Meta only into the manpage *)
+Theorem C16_render_html_succeeds :
+  forall env app o full, odok o ->
+  exists d html, collect_html env app (ometa_of o) (oinfo_of o) = Some d /\ render_html full d = Some html.
+Proof. exact render_html_returns. Qed.
+Print Assumptions C16_render_html_succeeds.
+
+Theorem C16_render_manpage_succeeds :
+  forall env app o, odok o ->
+  exists d man, manpage_doc env app (ometa_of o) (oinfo_of o) = Some d /\ render_roff (manpage_th app) d = Some man.
+Proof. exact render_manpage_returns. Qed.
+Print Assumptions C16_render_manpage_succeeds.
 
 (* ---- HTML, full statement: for every parser, every tag of the generated page is closed by its own kind *)
 Theorem C16_html_well_nested :
@@ -105,7 +120,7 @@ Example C16_example_odok :
   odok o /\ exists d, collect_html (fun _ => None) [97%N] (ometa_of o) (oinfo_of o) = Some d /\ bal [] d = true.
 Proof.
   cbv zeta. split.
-  - cbn. repeat split; try exact I; try (intros st; reflexivity).
+  - cbn. repeat split; try exact I; try (intros st; reflexivity); reflexivity.
   - eexists. split; vm_compute; reflexivity.
 Qed.
 
